@@ -57,6 +57,46 @@ def readonly_append_unit(U):
         U.prove(f"readonly.append.path{p}.frames_untouched", P, z3.BoolVal(len(st.attrs["data"]) == 2 and all(a is b for a, b in zip(st.attrs["data"], frames)) and len(st.attrs["times"]) == 2))
 
 
+def from_fields_unit(U):
+    """MemoryStorage.from_fields: the storage is built from the times, the data of the fields in order, the first field
+    as template, the info and the REQUESTED write mode"""
+    def body(it):
+        cls = it.module_attr(it.load_module(MEM), "MemoryStorage")
+        got = {}
+
+        def ctor(interp, args, kw):
+            got["args"], got["kw"] = list(args[1:]), dict(kw)
+
+        it.contracts[(MEM, "MemoryStorage.__init__")] = ctor
+        grid = Instance(None, {"__eq__": lambda o: True}, name="grid")
+        fields = [Instance(None, {"data": Instance(None, {}, name=f"data{i}"), "grid": grid}, name=f"field{i}") for i in range(3)]
+        times = [z3.Real(f"t{i}") for i in range(3)]
+        info = {"key": "value"}
+        mode = ("append", "truncate", "readonly", "truncate_once")[0]
+        out = []
+        for mode in ("append", "truncate", "readonly", "truncate_once"):
+            it.call(it.getattr(cls, "from_fields"), [times, fields], {"info": info, "write_mode": mode})
+            out.append((mode, got.get("args"), got.get("kw")))
+        return out, fields, times, info
+
+    for p, res in enumerate(explore_paths(U, body)):
+        P = prem_of(res.ctx)
+        if res.outcome != "return":
+            U.prove(f"from_fields.path{p}.returns_normally", P, z3.BoolVal(False), info={"exc": str(res.exc)})
+            continue
+        out, fields, times, info = res.value
+        for mode, args, kw in out:
+            allkw = dict(kw or {})
+            names = ["times", "data", "info", "field_obj", "write_mode"]
+            for n_, v_ in zip(names, args or []):
+                allkw.setdefault(n_, v_)
+            U.prove(f"from_fields.path{p}.write_mode_{mode}_is_forwarded", P, z3.BoolVal(allkw.get("write_mode") == mode))
+            data = allkw.get("data")
+            U.prove(f"from_fields.path{p}[{mode}].times_data_template_info", P,
+                    z3.BoolVal(allkw.get("times") is times and isinstance(data, list) and len(data) == 3 and all(d is f.attrs["data"] for d, f in zip(data, fields))
+                               and allkw.get("field_obj") is fields[0] and allkw.get("info") is info))
+
+
 def append_unit(U):
     for k in (0, 1, 2):
         def body(it, k=k):
@@ -414,7 +454,7 @@ def extract_field_unit(U):
 
 
 UNITS = [
-    ("append", append_unit), ("append[readonly]", readonly_append_unit), ("start_writing", start_writing_unit), ("_get_field.isolation", get_field_unit),
+    ("from_fields", from_fields_unit), ("append", append_unit), ("append[readonly]", readonly_append_unit), ("start_writing", start_writing_unit), ("_get_field.isolation", get_field_unit),
     ("__getitem__.content", get_field_content_unit), ("clear", clear_unit), ("extract_time_range", extract_time_range_unit),
     ("items_and_iteration", items_unit), ("copy", copy_apply_unit("copy")), ("apply", copy_apply_unit("apply")), ("extract_field", extract_field_unit),
 ]
